@@ -140,7 +140,9 @@ CHECKS = {
              "redundant parentheses, decimal vs fraction literals, explicit vs omitted last probability, simultaneous assignment vs explicit temporaries, elif vs nested "
              "else-if) and with precedence-sensitive constants (2-3-4, -2**2, 2**3**2, ...); both closed forms must agree at every n and rendering A must agree with the "
              "exact interpreter of the AST (Python precedence, remainder probability, parallel assignment, exact decimals); (b) texts damaged by one of 11 structural "
-             "mutation operators must be rejected by the parser; choices with negative probabilities or a sum above 1 must be rejected.",
+             "mutation operators must be rejected by the parser; choices with negative probabilities or a sum above 1 must be rejected; (c) a variable renamed to a "
+             "name the computer algebra system reads as a constant (e, pi, oo, ...) or to a name Polar generates itself (_t0, ...) must be rejected or analysed like "
+             "the original program.",
         note=TRUSTED + " The mutation operators were chosen by inspection of syntax.lark so that every result is outside the grammar. A variant refused after parsing "
              "(the nested-if refusal listed under C18) is counted as a refusal, a parse error on a rewritten valid text is a violation.",
         design="DESIGN.md section 4 C19",
